@@ -517,8 +517,6 @@ class GromacsEngine(EngineBase):
                 system.pos = data["x"]
                 system.vel = data["v"]
                 system.box = box_matrix_to_list(data["box"], full=True)
-                if system.vel is not None and reverse:
-                    system.vel *= -1
                 order = self.calculate_order(
                     system, xyz=system.pos, vel=system.vel, box=system.box
                 )
